@@ -61,7 +61,10 @@ def wrapper_obligations(rep, name):
     fnl = fn["function"]
     fails = []
     args = sp.fresh_args()
-    runs = {f: sp.run(f, args=args) for f in "BHJM"}
+    runs = {}
+    for f in "BHJM":
+        runs[f] = sp.run(f, args=args)
+        bhjm.report_problems(rep, sp, f"{name}.{f}", fnl)
     rep.paths += sum(len(v) for v in runs.values())
     for f, paths in runs.items():
         for i, p in enumerate(paths):
